@@ -227,6 +227,11 @@ def run(ctx):
     from checks.c10 import load
 
     prog, S, M = load(ctx.repo)
+
+    from sa.xmlchemy_model import ALL_PARTS, mechanism_gate  # noqa: F401
+
+
+    mechanism_gate(ctx, M, ("attr", "get_or_add", "remover", "change_to"))
     T = Types(prog, M)
     ctx.level = "other"
     ctx.trusted = ["CPython ast", "typed delegation chains (engine A)", "schema attribute defaults as oracle for R9.3"]
